@@ -15,6 +15,7 @@ package checks
 
 import (
 	"bufio"
+	"bytes"
 	"context"
 	"crypto/sha256"
 	"database/sql"
@@ -79,6 +80,12 @@ func init() {
 		}
 		return 8
 	}, runKMountC15)
+	addKMount("C10", func(tier string) int {
+		if tier == "thorough" {
+			return 96
+		}
+		return 8
+	}, runKMountC10)
 	addKMount("C07", func(tier string) int {
 		if tier == "thorough" {
 			return 96
@@ -1986,4 +1993,178 @@ func runKMountC15(c *core.Case, k int) {
 func (s *sqlDB) tableHash(table string) (string, error) {
 	r, err := s.p.call(sqlReq{Op: "query1", H: s.h, Q: "SELECT count(*) || '/' || coalesce(sum(length(v)),0) || '/' || coalesce(hex(group_concat(substr(v,1,8))),'') FROM (SELECT v FROM " + table + " ORDER BY id)"})
 	return r.Val, err
+}
+
+// runKMountC10: exports and replica snapshots taken while real SQLite commits
+// and checkpoints on its own schedule (wal_autocheckpoint forced low). Every
+// export that completes must be byte for byte the image of the position it
+// reports, as rebuilt independently from the primary's transaction files; a
+// replica that joins mid-stream must end up reading the primary's content.
+func runKMountC10(c *core.Case, k int) {
+	if ok, why := kmountAvailable(); !ok {
+		c.Count("kmount_unavailable", 1)
+		if k == 0 {
+			c.Sample(map[string]any{"kmount": "unavailable", "why": why})
+		}
+		return
+	}
+	c.Count("kmount_cases", 1)
+	mode := []string{"wal", "wal", "delete", "wal", "truncate"}[k%5]
+	ps := []int{1024, 4096, 512}[c.Rng.IntN(3)]
+	cl, err := cluster.New(c.Dir, []cluster.NodeOpts{{Candidate: true, KernelMount: true}, {KernelMount: true}})
+	if err != nil {
+		c.Inconclusive(err.Error())
+		return
+	}
+	defer cl.Close()
+	if err := cl.Start(0); err != nil || cl.WaitPrimary(0, 10*time.Second) == nil {
+		c.Inconclusive(fmt.Sprintf("primary start: %v", err))
+		return
+	}
+	P, R := cl.Nodes[0], cl.Nodes[1]
+	detail := map[string]any{"driver": "B (kernel mount + real SQLite)", "journal_mode": mode, "page_size": ps}
+	proc, err := startSQLProc()
+	if err != nil {
+		c.Inconclusive("SQL child: " + err.Error())
+		return
+	}
+	defer proc.stop()
+	w, err := proc.open(filepath.Join(P.MountDir(), "db"), false)
+	if err != nil {
+		c.Violate("C10/kmount/open", err.Error(), detail)
+		return
+	}
+	for _, q := range []string{fmt.Sprintf("PRAGMA page_size=%d", ps), "PRAGMA journal_mode=" + mode, fmt.Sprintf("PRAGMA wal_autocheckpoint=%d", 2+c.Rng.IntN(8)),
+		"CREATE TABLE t0(id INTEGER PRIMARY KEY, k INTEGER, v BLOB)", "INSERT INTO t0 VALUES(1,1,randomblob(4000))"} {
+		if _, err := w.queryStringOrExec(q); err != nil {
+			c.Violate("C10/kmount/setup", q+": "+err.Error(), detail)
+			return
+		}
+	}
+	chain := &ltxChain{dir: filepath.Join(mon.DBDir(P.Node, "db"), "ltx")}
+	type export struct {
+		pos  mon.PosKey
+		data []byte
+		err  error
+	}
+	var exports []export
+	var emu sync.Mutex
+	var stop atomic.Bool
+	var wg sync.WaitGroup
+	wg.Add(1)
+	go func() {
+		defer wg.Done()
+		for !stop.Load() {
+			db := P.Store.DB("db")
+			if db == nil {
+				time.Sleep(time.Millisecond)
+				continue
+			}
+			var buf bytes.Buffer
+			ctx, cancel := context.WithTimeout(context.Background(), 20*time.Second)
+			pos, err := db.Export(ctx, &buf)
+			cancel()
+			emu.Lock()
+			if len(exports) < 60 {
+				exports = append(exports, export{mon.PosKey{TXID: uint64(pos.TXID), Chk: uint64(pos.PostApplyChecksum)}, buf.Bytes(), err})
+			}
+			emu.Unlock()
+			time.Sleep(time.Duration(c.Rng.IntN(4)) * time.Millisecond)
+		}
+	}()
+	steps := 50
+	if c.Tier == "thorough" {
+		steps = 120
+	}
+	nextID := 10
+	failed := false
+	for step := 0; step < steps && !failed; step++ {
+		nextID++
+		q := ""
+		switch r := c.Rng.IntN(10); {
+		case r < 5:
+			q = fmt.Sprintf("INSERT INTO t0 VALUES(%d,%d,randomblob(%d))", nextID, step, 100+c.Rng.IntN(9000))
+		case r < 7:
+			q = fmt.Sprintf("UPDATE t0 SET v=randomblob(%d), k=k+1 WHERE id%%3=%d", 50+c.Rng.IntN(3000), c.Rng.IntN(3))
+		case r < 8:
+			q = fmt.Sprintf("DELETE FROM t0 WHERE id%%4=%d AND id>1", c.Rng.IntN(4))
+		case r < 9 && mode == "wal":
+			q = fmt.Sprintf("PRAGMA wal_checkpoint(%s)", pick(c, []string{"PASSIVE", "FULL", "RESTART", "TRUNCATE"}))
+		default:
+			q = fmt.Sprintf("INSERT INTO t0 VALUES(%d,%d,zeroblob(%d))", nextID, step, c.Rng.IntN(4000))
+		}
+		if _, err := w.queryStringOrExec(q); err != nil {
+			healthViolations(c, P.Node, q, detail)
+			if !c.Violated() {
+				c.Violate("C10/kmount/sql-error", fmt.Sprintf("%q failed on the primary while exports were running: %v", q, err), detail)
+			}
+			failed = true
+			break
+		}
+		c.Count("kmount_statements", 1)
+		if step == steps/2 {
+			// a replica joins now: its snapshot is taken between real commits and checkpoints
+			if err := cl.Start(1); err != nil {
+				c.Inconclusive("replica start: " + err.Error())
+				failed = true
+			}
+		}
+	}
+	stop.Store(true)
+	wg.Wait()
+	if failed || healthViolations(c, P.Node, "exports under real SQLite", detail) {
+		return
+	}
+	if _, prob := chain.advance(); prob != "" {
+		c.Violate("C10/kmount/ltx-chain", prob, detail)
+		return
+	}
+	good := 0
+	for i, e := range exports {
+		if e.err != nil {
+			c.Count("kmount_exports_failed", 1)
+			continue
+		}
+		want := chain.imageAt(e.pos)
+		if want == nil {
+			c.Violate("C10/kmount/export-position-never-committed", fmt.Sprintf("export %d reports position %s, which no transaction file of the primary ends at", i, e.pos), detail)
+			return
+		}
+		got := ref.ImageFromBytes(uint32(ps), e.data)
+		if d := got.Diff(want); d != "" {
+			c.Violate("C10/kmount/export-mixture", fmt.Sprintf("export %d completed and reports position %s but its bytes are not the image of that position: %s", i, e.pos, d), detail)
+			return
+		}
+		good++
+	}
+	c.Count("kmount_exports_judged", good)
+	// the joined replica converges and reads the primary's content
+	if ok, _, timedOut := cl.WaitConverged(P, R, []string{"db"}, 8, 30*time.Second); timedOut {
+		c.Inconclusive("replica convergence watchdog")
+		return
+	} else if !ok {
+		healthViolations(c, R.Node, "replica joined mid-stream", detail)
+		if !c.Violated() {
+			c.Violate("C10/kmount/replica-not-converged", fmt.Sprintf("replica at %s, primary at %s", mon.PosOf(R.Node, "db"), mon.PosOf(P.Node, "db")), detail)
+		}
+		return
+	}
+	ph, err := w.contentHash()
+	if err != nil {
+		c.Violate("C10/kmount/read-error", err.Error(), detail)
+		return
+	}
+	rr, err := proc.open(filepath.Join(R.MountDir(), "db"), true)
+	if err != nil {
+		c.Violate("C10/kmount/replica-open", err.Error(), detail)
+		return
+	}
+	rh, err := rr.contentHash()
+	rr.close()
+	if err != nil || rh != ph {
+		c.Violate("C10/kmount/replica-content-differs", fmt.Sprintf("the replica that joined mid-stream reads %s (%v), the primary %s", rh, err, ph), detail)
+		return
+	}
+	c.Count("kmount_snapshot_joins_judged", 1)
+	c.Distinct(fmt.Sprintf("kmount/c10/%s/ps%d", mode, ps))
 }
